@@ -66,6 +66,7 @@ type scDef struct {
 	X      int        `json:"x"`
 	Y      int        `json:"y"`
 	Obs    *scObs     `json:"obs,omitempty"`
+	m      int        // replay: where the interrupted iteration stopped
 }
 
 type scProg struct {
@@ -184,7 +185,11 @@ func scExec(p scProg, rnd *rand.Rand) (ev interface{}) {
 	e := scEvent{Op: "case", Src: p.Src, Defs: p.Defs, Probes: p.Probes}
 	// observe only after everything is built: later operations must not disturb earlier values
 	for i := range p.Defs {
-		p.Defs[i].Obs = scObserve(vals[i], 1+rnd.Intn(3))
+		m := p.Defs[i].m
+		if m == 0 {
+			m = 1 + rnd.Intn(3)
+		}
+		p.Defs[i].Obs = scObserve(vals[i], m)
 	}
 	for i := range vals {
 		h := make([]bool, len(p.Probes))
@@ -600,6 +605,9 @@ func scopeCmd(args []string) error {
 				return nil
 			}
 			for i := range p.Defs {
+				if o := p.Defs[i].Obs; o != nil {
+					p.Defs[i].m = o.Stop.M
+				}
 				p.Defs[i].Obs = nil
 			}
 			progs = append(progs, p.scProg)
